@@ -91,6 +91,33 @@ func bmpAddPathMarshallingOption(path *table.Path) *bgp.MarshallingOption {
 	}
 }
 
+// bmpSetPathID rewrites the path identifier of every NLRI of an UPDATE built
+// for a single path.
+func bmpSetPathID(m *bgp.BGPMessage, id uint32) {
+	u, ok := m.Body.(*bgp.BGPUpdate)
+	if !ok {
+		return
+	}
+	for i := range u.NLRI {
+		u.NLRI[i].ID = id
+	}
+	for i := range u.WithdrawnRoutes {
+		u.WithdrawnRoutes[i].ID = id
+	}
+	for _, a := range u.PathAttributes {
+		switch attr := a.(type) {
+		case *bgp.PathAttributeMpReachNLRI:
+			for i := range attr.Value {
+				attr.Value[i].ID = id
+			}
+		case *bgp.PathAttributeMpUnreachNLRI:
+			for i := range attr.Value {
+				attr.Value[i].ID = id
+			}
+		}
+	}
+}
+
 func (b *bmpClient) tryConnect() *net.TCPConn {
 	interval := 1
 	for {
@@ -235,8 +262,18 @@ func (b *bmpClient) loop() {
 								}
 							}
 							for _, path := range pathList {
-								for _, u := range table.CreateUpdateMsgFromPaths([]*table.Path{path}) {
-									payload, _ := u.Serialize()
+								// The station decodes what this peer sent with the capabilities of
+								// the Peer Up: where ADD-PATH receive was negotiated the regenerated
+								// UPDATE must carry the path identifier the peer used.
+								var opts []*bgp.MarshallingOption
+								if msg.Neighbor != nil && msg.Neighbor.IsAddPathReceiveEnabled(path.GetFamily()) {
+									opts = []*bgp.MarshallingOption{bmpAddPathMarshallingOption(path)}
+								}
+								for _, u := range table.CreateUpdateMsgFromPaths([]*table.Path{path}, opts...) {
+									if len(opts) > 0 {
+										bmpSetPathID(u, path.RemoteID())
+									}
+									payload, _ := u.Serialize(opts...)
 									if err := write(bmpPeerRoute(bmp.BMP_PEER_TYPE_GLOBAL, msg.PostPolicy, 0, true, info, path.GetTimestamp().Unix(), payload)); err != nil {
 										return false
 									}
